@@ -30,6 +30,7 @@ func main() {
 		fmt.Println("SPEC ERROR:", er)
 	}
 	bad := 0
+	var rs []*govc.FuncResult
 	for _, k := range strings.Split(*fns, ",") {
 		if k == "" {
 			continue
@@ -43,6 +44,19 @@ func main() {
 			bad++
 			continue
 		}
+		if ct := e.DB.Contracts[k]; ct != nil && ct.Implements != "" {
+			rr, err := e.VerifyRefinement(k)
+			if err != nil {
+				fmt.Println("ERROR:", err)
+				bad++
+			} else {
+				rs = append(rs, rr)
+			}
+		}
+		rs = append(rs, r)
+	}
+	for _, r := range rs {
+		k := r.Key
 		fmt.Printf("== %s: %d obligations, %d hyps, %d instrs, %d inlined\n", k, len(r.Obls), len(r.Hyps), r.Instrs, r.Inlined)
 		for _, n := range r.Notes {
 			fmt.Println("   note:", n)
